@@ -28,6 +28,9 @@ Shapes ==
       rs \in {8, 16}, nc \in 5 .. 9, nd \in 1 .. 9} \cup
   {[kind |-> "hybrid", rsize |-> 8, ncode |-> 5, ndata |-> 0, ram |-> SetToSeq(s), npass |-> 0, high |-> FALSE, passfirst |-> FALSE, cpuin |-> FALSE, what |-> ""] :
       s \in (SUBSET RamLines) \ {{}}} \cup
+  \* the ROM program uses r0 only; the RAM program uses registers the ROM program does not (r1, r2)
+  {[kind |-> "hybrid", rsize |-> 8, ncode |-> 4, ndata |-> 0, ram |-> SetToSeq(s), npass |-> 0, high |-> FALSE, passfirst |-> FALSE, cpuin |-> FALSE, what |-> "rom0"] :
+      s \in (SUBSET {"inc", "inc1", "dec"}) \ {{}}} \cup
   {[kind |-> "pass", rsize |-> 8, ncode |-> 5, ndata |-> 0, ram |-> <<>>, npass |-> np, high |-> h, passfirst |-> pf, cpuin |-> ci, what |-> ""] :
       np \in 0 .. 2, h \in BOOLEAN, pf \in BOOLEAN, ci \in BOOLEAN} \cup
   {[kind |-> "romscan", rsize |-> 8, ncode |-> 6, ndata |-> nl * wpl, ram |-> <<>>, npass |-> nl, high |-> FALSE, passfirst |-> FALSE, cpuin |-> FALSE, what |-> ToString(wpl)] :
@@ -46,7 +49,7 @@ VARIABLE s
 Init == s \in Shapes
 Next == UNCHANGED s
 Spec == Init /\ [][Next]_s
-Demands == MinRom(s) >= 5 /\ NOut(s) >= 1
+Demands == MinRom(s) >= 4 /\ NOut(s) >= 1
 
 ASSUME ndJsonSerialize(IOEnv.ROWS, SetToSeq({x @@ [minrom |-> MinRom(x), nin |-> NIn(x), nout |-> NOut(x)] : x \in Shapes}))
 =============================================================================
